@@ -117,3 +117,52 @@ func TestBoundedC17MarshalResultStable(t *testing.T) {
 		t.Fatalf("round trip: in=%+v out=%+v", in, out)
 	}
 }
+
+// Bound: video stream configurations with 1..3 codecs, each with 1..3 attribute entries (the tagged lists nested in tagged
+// lists of the RTP types), audio stream configurations with 1..3 codecs, and the two library defaults: Unmarshal(Marshal(v))
+// must be deeply equal to v.
+func TestBoundedC17ListRoundTrip(t *testing.T) {
+	codec := func(typ byte, nattr int) VideoCodecConfiguration {
+		c := VideoCodecConfiguration{
+			Type: typ,
+			Parameters: VideoCodecParameters{
+				Profiles:       []VideoCodecProfile{{VideoCodecProfileMain}, {VideoCodecProfileHigh}},
+				Levels:         []VideoCodecLevel{{VideoCodecLevel3_2}, {VideoCodecLevel4}},
+				Packetizations: []VideoCodecPacketization{{1}},
+			},
+		}
+		for k := 0; k < nattr; k++ {
+			c.Attributes = append(c.Attributes, VideoCodecAttributes{uint16(640 + k), uint16(65535 - k), byte(30 - k)})
+		}
+		return c
+	}
+	var vals []interface{}
+	for ncodec := 1; ncodec <= 3; ncodec++ {
+		for nattr := 1; nattr <= 3; nattr++ {
+			v := VideoStreamConfiguration{}
+			for k := 0; k < ncodec; k++ {
+				v.Codecs = append(v.Codecs, codec(byte(k+1), nattr))
+			}
+			vals = append(vals, v)
+		}
+		a := AudioStreamConfiguration{ComfortNoise: ncodec%2 == 1}
+		for k := 0; k < ncodec; k++ {
+			a.Codecs = append(a.Codecs, AudioCodecConfiguration{Type: byte(k + 2), Parameters: AudioCodecParameters{Channels: 1, Bitrate: byte(k % 2), Samplerate: byte(k + 1)}})
+		}
+		vals = append(vals, a)
+	}
+	vals = append(vals, DefaultVideoStreamConfiguration(), DefaultAudioStreamConfiguration())
+	for i, v := range vals {
+		b, err := tlv8.Marshal(v)
+		if err != nil {
+			t.Fatalf("value %d: marshal: %v", i, err)
+		}
+		out := reflect.New(reflect.TypeOf(v))
+		if err := tlv8.Unmarshal(b, out.Interface()); err != nil {
+			t.Fatalf("value %d: unmarshal: %v", i, err)
+		}
+		if !reflect.DeepEqual(out.Elem().Interface(), v) {
+			t.Errorf("value %d does not round-trip:\n in  %+v\n out %+v\n bytes %x", i, v, out.Elem().Interface(), b)
+		}
+	}
+}
